@@ -89,7 +89,7 @@ def cases(draw, max_chroms=4, max_bins=6):
         "dest": draw(st.sampled_from(["", "", "::/", "::/g", "::g/h", "::/resolutions/100"])),
         "metadata": draw(gen.metadata_docs()),
         "assembly": draw(ASSEMBLY),
-        "categorical": draw(st.booleans()),
+        "categorical": draw(st.sampled_from([False, True, "lexical"])),
         "bins_extra": draw(st.sampled_from([None, None, "gc", "gc+mask"])),
     }
     return case
@@ -183,7 +183,11 @@ def check_roundtrip(case, ctx: Ctx):
     n = gen.n_bins(bt)
     path = ctx.tmp(".cool")
     uri = path + case["dest"]
-    bins = gen.bins_df(bt, categorical=case["categorical"], extra=_bins_extra(case["bins_extra"], n))
+    bins = gen.bins_df(bt, categorical=bool(case["categorical"]), extra=_bins_extra(case["bins_extra"], n))
+    if case["categorical"] == "lexical":
+        # e.g. bins["chrom"].astype("category"): the categories are sorted lexically, not in order of appearance;
+        # the chromosome order of a cooler is the order of appearance in the bin table
+        bins["chrom"] = bins["chrom"].astype(object).astype("category")
     px = build_input(case)
     kw = {}
     if cols != ["count"]:
@@ -197,6 +201,14 @@ def check_roundtrip(case, ctx: Ctx):
     try:
         if case["form"] == "chunks-ensure-sorted":
             kw["ensure_sorted"] = True
+        if case["form"] == "arrayloader" and case["junk"]:
+            # the same loader object feeds an earlier creation first (binners are re-iterable objects)
+            first = ctx.tmp(".cool")
+            try:
+                call("create_cooler (first use of the loader)", cooler.create_cooler, first, bins, px, ordered=True, symmetric_upper=symmetric)
+                check(cooler.Cooler(first).info["nnz"] == len(rows), "first creation from the loader lost pixels")
+            finally:
+                ctx.clean(first)
         call("create_cooler", cooler.create_cooler, uri, bins, px, ordered=True,
              symmetric_upper=symmetric, h5opts=_h5opts(case["h5opts"]), **kw)
         clr = call("Cooler()", cooler.Cooler, uri)
